@@ -153,13 +153,20 @@ class RefSim:
                 toks.append("")
             src, dst, par = toks
             for l, v in linkvals:
-                if l["sp"] != pop:
+                # documented selector forms: "src:" = every link OUT of this population's src (transfers to other populations included),
+                # ":dst" = every link INTO this population's dst (transfers from other populations included), "src:dst" = links out of
+                # src whose destination is called dst, "::" = the links of this population; an optional third token restricts to a parameter
+                if src:
+                    if l["sp"] != pop or l["src"] != src:
+                        continue
+                    if dst and l["dst"] != dst:
+                        continue
+                elif dst:
+                    if l["dp"] != pop or l["dst"] != dst:
+                        continue
+                elif l["sp"] != pop:
                     continue
-                if src and l["src"] != src:
-                    continue
-                if dst and l["dst"] != dst:
-                    continue
-                if par and l["par"] != par:
+                if par and l["parname"] != par:
                     continue
                 tot += v
         return tot / self.dt
